@@ -2,6 +2,7 @@
 from driver.common import Case, dd_chunks
 
 ID = "C01"
+NEEDS_BINARY = True
 LEAN_MODULES = ["Gv.Props.C01"]
 REQUIRED_THEOREMS = ["Gv.Props.C01." + n for n in [
     "step_inv", "run_inv", "inv_of_empty_bag", "inv_of_empty_align", "lookup_paths_agree", "idByName_spec",
@@ -183,7 +184,7 @@ def gen_big(rng):
     return Case("hist", [kind, 1, prow(rows), ";".join(ops)], True, "hist-big-" + kind)
 
 
-def gen(rng, tier):
+def _gen_core(rng, tier):
     n = 1500 if tier == "quick" else 15000
     maxops = 12 if tier == "quick" else 40
     for _ in range(n):
@@ -249,6 +250,8 @@ def _rows_unequal(impl, k):
 
 
 def matches(c):
+    if c.op.startswith("det"):
+        return (c.impl or "").startswith("same")
     """model = implementation, compared up to (and including) the step at which the property is already
     violated: what the code does with a ragged 'alignment' afterwards (index panics...) is not modelled"""
     if c.model == c.impl:
@@ -257,3 +260,16 @@ def matches(c):
     if k is None or not (c.verdict or "").startswith("fail:ragged-step"):
         return False
     return (c.model or "").split(";")[:k + 1] == (c.impl or "").split(";")[:k + 1]
+
+
+# ---- command-line glue: a multi-alignment Phylip input must be treated as its alignments one by one (`detmulti`) ----
+MULTI_CMDS = [['sort'], ['addid', '-n', 'x_'], ['rename', '-e', 's', '-b', 't'], ['replace', '-s', 'A', '-n', 'T'], ['trim', 'seq', '-n', '1'], ['trim', 'name', '-n', '3']]
+
+
+def gen(rng, tier):
+    from driver import multigen
+    for c in _gen_core(rng, tier):
+        yield c
+    for _ in range(2 if tier == "quick" else 20):
+        for argv in MULTI_CMDS:
+            yield multigen.multi_case(multigen.alignments(rng), argv, "cli-multi-" + "-".join(argv[:2]))
